@@ -326,6 +326,9 @@ func (p *Poly) isVar(v *FVar) bool {
 // Mul returns p*q.
 func (p *Poly) Mul(q *Poly) *Poly {
 	out := newPoly(p.F)
+	if len(p.mons)*len(q.mons) > 4_000_000 {
+		panic(&abort{fmt.Sprintf("polynomial blow-up (%d x %d terms): a computation outside the forms the polynomial domain can follow", len(p.mons), len(q.mons))})
+	}
 	for _, a := range p.mons {
 		for _, b := range q.mons {
 			r := p.mulMon(a, b)
@@ -633,4 +636,115 @@ func varIsZero2(v *FVar) *Term {
 	}
 	pv := PolyVar(v)
 	return TPred(A.internP("isz:"+pv.Key(), func() *PAtom { return &PAtom{Kind: PISZ, V: pv} }))
+}
+
+// SymVar returns the variable of a free field symbol created by FieldSym.
+func SymVar(f *Field, name string) *FVar {
+	return A.internF("fsym:"+f.Name+":"+name, func() *FVar { return &FVar{Kind: FSym, F: f, Name: name} })
+}
+
+// ReducePow rewrites v^e (e >= k) as v^(e-k)*repl until no such power is left.
+func (p *Poly) ReducePow(v *FVar, k int64, repl *Poly) *Poly {
+	kk := big.NewInt(k)
+	for iter := 0; iter < 64; iter++ {
+		changed := false
+		out := newPoly(p.F)
+		for _, m := range p.mons {
+			idx := -1
+			for i, x := range m.vars {
+				if x.v == v && x.e.Cmp(kk) >= 0 {
+					idx = i
+				}
+			}
+			if idx < 0 {
+				out.addMon(m.c, m.vars)
+				continue
+			}
+			changed = true
+			rest := newPoly(p.F)
+			var vars []pv
+			for i, x := range m.vars {
+				if i == idx {
+					if d := new(big.Int).Sub(x.e, kk); d.Sign() > 0 {
+						vars = append(vars, pv{x.v, d})
+					}
+					continue
+				}
+				vars = append(vars, x)
+			}
+			rest.addMon(m.c, vars)
+			out = out.Add(rest.Mul(repl))
+		}
+		p = out
+		if !changed {
+			break
+		}
+	}
+	return p
+}
+
+// LeadCoef returns the coefficient and key of the first monomial in canonical order.
+func (p *Poly) LeadCoef() (*big.Int, string) {
+	ms := p.sorted()
+	if len(ms) == 0 {
+		return nil, ""
+	}
+	return ms[0].c, pmonKey(ms[0].vars)
+}
+
+// CoefOf returns the coefficient of the monomial with the given key (0 if absent).
+func (p *Poly) CoefOf(key string) *big.Int {
+	if m, ok := p.mons[key]; ok {
+		return m.c
+	}
+	return new(big.Int)
+}
+
+// LinPart is one term of a polynomial that is linear in free symbols: Weight (a pure-predicate integer term) times Var ("" for the constant part).
+type LinPart struct {
+	Var    string
+	Weight *Term
+}
+
+// LinearParts splits p into Σ weight·var where every monomial has at most
+// one free symbol (exponent 1) and otherwise only predicate variables; the
+// coefficients are read as small signed integers.
+func (p *Poly) LinearParts() ([]LinPart, bool) {
+	acc := map[string]*Term{}
+	half := new(big.Int).Rsh(p.F.M, 1)
+	for _, m := range p.mons {
+		c := new(big.Int).Set(m.c)
+		if c.Cmp(half) > 0 {
+			c.Sub(c, p.F.M)
+		}
+		if c.BitLen() > 300 {
+			return nil, false
+		}
+		w := TConst(c)
+		name := ""
+		for _, x := range m.vars {
+			switch x.v.Kind {
+			case FPV:
+				w = w.Mul(TPred(x.v.P))
+			case FSym:
+				if name != "" || x.e.Cmp(bigOne) != 0 {
+					return nil, false
+				}
+				name = x.v.Name
+			default:
+				return nil, false
+			}
+		}
+		if o, ok := acc[name]; ok {
+			acc[name] = o.Add(w)
+		} else {
+			acc[name] = w
+		}
+	}
+	var out []LinPart
+	for k, w := range acc {
+		out = append(out, LinPart{k, w})
+	}
+	sort.Slice(out, func(i, j int) bool { return out[i].Var < out[j].Var })
+	return out, true
 }
